@@ -217,7 +217,10 @@ Definition m_join (c : howcfg) (s : st) (R : frame) (rbase : nat) (octes : list 
                    (resolve_items (order_of fr' tabs') [] items) (s_where s)) in
       if f_cross f then finish None (map IName names)
       else match on with
-           | OnNone => None
+           | OnNone =>
+               (* no condition and not the product: the kind is kept and joined ON TRUE (only when join() does not rewrite
+                  every condition-less join into a cross join; otherwise this point is not reached with a valid type) *)
+               if h_none_eq c then finish (Some (ELit (VBool true))) (map IName names) else None
            | OnNames ks =>
                (* the tables searched for the left key: all but the one called other_df.latest_cte_name *)
                let other_tab := match stale with Some i => i | None => j end in
@@ -344,7 +347,8 @@ Definition sp_join (p : sp) (R : frame) (rbase : nat) (on : onform) (how : strin
       | OnNone =>
           (* the kind asked for, condition TRUE; an inner join without condition is the product *)
           let kk := match k with JInner => JCross | _ => k end in
-          mk kk None (if is_semi_anti k then p_out p else p_out p ++ rout)
+          mk kk (match kk with JCross => None | _ => Some (ELit (VBool true)) end)
+             (if is_semi_anti k then p_out p else p_out p ++ rout)
       | OnExprs es =>
           match map_opt (sp_uexpr (ref_valid tabs' bases' (p_out p ++ rout)) (p_out p ++ rout)) es with
           | Some es' => mk k' (conj_left es') (if is_semi_anti k' then p_out p else p_out p ++ rout)
